@@ -7,8 +7,8 @@ from vlib.core import rng, REPO
 PROPERTY = "C10"
 CASE_TIMEOUT = 300
 RULE = ("cases = the full configuration matrix {--to_bin,--to_cas,--to_dsk} x {append, no append} x pre-existing target {absent, empty, "
-        "cassette image, disk image with files, formatted disk image without files, raw binary, arbitrary bytes, cassette image >= 161280 bytes (three fillings of the bytes a disk "
-        "parser looks at), 161280 arbitrary bytes} x {assembler.py, file_util.py}, exhaustive in both tiers, plus random sequences of "
+        "cassette image, disk image with files, formatted disk image without files, raw binary, raw binaries of only $00 / $55 bytes (tape silence or leader and no block), arbitrary bytes, cassette image >= 161280 bytes (three fillings of the bytes a disk "
+        "parser looks at, and one whose file data shows a one-file disk at those offsets), 161280 arbitrary bytes} x {assembler.py, file_util.py}, exhaustive in both tiers, plus random sequences of "
         "2-4 such invocations on one target. Each invocation runs the real CLI in-process (runpy) under the M6 audit hook with "
         "content hashes before/after; thorough re-runs every cell as a real subprocess under strace and compares the syscall-level "
         "write set with the audit-hook write set. Oracle R6: the target may change only if append was given and the reference "
@@ -20,7 +20,7 @@ ASSUMPTIONS = ["kind of existing content is decided by the reference parsers: di
                "well-formed file and nothing malformed; raw = everything else",
                "'told why' = the tool printed something and did not print its success message"]
 SWITCH_KIND = {"--to_bin": "raw", "--to_cas": "cassette", "--to_dsk": "disk"}
-PRES = ["absent", "empty", "cassette", "disk", "blankdisk", "rawbin", "arbitrary", "bigcas-zero", "bigcas-text", "alignedcas-zero", "arb161k"]
+PRES = ["absent", "empty", "cassette", "disk", "blankdisk", "rawbin", "arbitrary", "bigcas-zero", "bigcas-text", "alignedcas-zero", "mimiccas", "rawbin-zeros", "rawbin-55", "arb161k"]
 ASM = " NAM NEWPRG\n ORG $2000\nSTART LDA #1\n STA $400\n RTS\n"
 ASM_IMAGE = bytes([0x86, 0x01, 0xB7, 0x04, 0x00, 0x39])
 NEW_FILE = {"name": "NEWPRG", "type": 2, "dtype": 0, "load": 0x2000, "exec": 0x2000, "data": ASM_IMAGE}
@@ -47,6 +47,10 @@ def pre_content(kind, r):
         return bytes(RD.blank())          # a formatted disk that holds no file yet is still a disk image
     if kind == "rawbin":
         return bytes([0x86, 0x01, 0x39, 0x12, 0x12])
+    if kind == "rawbin-zeros":
+        return bytes(300)                 # a zero-filled placeholder: tape silence only, no block, so not a cassette (wave 10, C10-P)
+    if kind == "rawbin-55":
+        return b"\x55" * 40 + bytes(3)    # the --to_bin image of FCB $55,... : a leader and nothing after it
     if kind == "arbitrary":
         return bytes(range(256)) * 3
     if kind.startswith("bigcas"):
@@ -54,6 +58,8 @@ def pre_content(kind, r):
         return RT.generate([tf("BIG%d" % i, bytes([fill]) * 60000) for i in range(3)], r)
     if kind.startswith("alignedcas"):
         return aligned_bigcas({"alignedcas-zero": 0x00, "alignedcas-ff": 0xFF}[kind])
+    if kind == "mimiccas":
+        return mimic_bigcas()
     if kind == "arb161k":
         return bytes([0x41]) * 161280
     raise ValueError(kind)
@@ -84,6 +90,44 @@ def aligned_bigcas(fill):
         t = standard_tape([tf("SHIFT", bytes([fill]) * shift)] + [tf("BIG%d" % i, bytes([fill]) * 60000) for i in range(3)])
         if len(t) >= RD.IMAGE and all(t[RD.DIR + 32 * k] in (0, 0xFF) for k in range(72)):
             _ALIGNED[fill] = t
+            return t
+    raise AssertionError("no alignment found")
+
+
+def mimic_bigcas():
+    """a well-formed cassette > 161280 bytes whose file DATA shows a one-file disk to a reader that looks only at the offsets
+    Disk BASIC uses: allocation-table entry 0 = $C1, first directory entry HIDDEN.BIN (ASCII, granule 0, 5 bytes), every other
+    entry starting $00.  It is tape blocks from end to end and longer than a disk image, so it is a cassette (wave 10, C10-N)"""
+    if "mimic" in _ALIGNED:
+        return _ALIGNED["mimic"]
+    want = {RD.FAT: 0xC1}
+    for i, v in enumerate(b"HIDDEN  BIN" + bytes([0x00, 0xFF, 0x00, 0x00, 0x05])):
+        want[RD.DIR + i] = v
+    for shift in range(1, 600):
+        files = [tf("SHIFT", bytes(shift))] + [tf("BIG%d" % i, bytes(60000)) for i in range(3)]
+        t = standard_tape(files)
+        if len(t) <= RD.IMAGE or not all(t[RD.DIR + 32 * k] in (0, 0xFF) for k in range(72)):
+            continue
+        where, p = {}, 0
+        for k, f in enumerate(files):
+            p += 128 + 128 + 21 + 128 + 128
+            for d in range(0, len(f["data"]), 255):
+                ln = min(255, len(f["data"]) - d)
+                p += 4
+                for o in want:
+                    if p <= o < p + ln:
+                        where[o] = (k, d + o - p)
+                p += ln + 2
+            p += 6
+        if len(where) != len(want) or p != len(t):
+            continue
+        for o, (k, d) in where.items():
+            data = bytearray(files[k]["data"])
+            data[d] = want[o]
+            files[k]["data"] = bytes(data)
+        t = standard_tape(files)
+        if t[RD.DIR:RD.DIR + 11] == b"HIDDEN  BIN" and t[RD.FAT] == 0xC1:
+            _ALIGNED["mimic"] = t
             return t
     raise AssertionError("no alignment found")
 
